@@ -109,6 +109,10 @@ func (vc *VC) modComp(m Expr, spec *FuncSpec, fr *Frame, cc *ssa.CallCommon) []s
 		if m.Name == "$chpos" {
 			return []string{vc.chposComp()}
 		}
+		if m.Name == "$wr" || m.Name == "$wrlen" || m.Name == "$wrflush" {
+			vc.wrComps()
+			return []string{m.Name}
+		}
 		if strings.HasPrefix(m.Name, "$") {
 			vc.comp(m.Name, "Int")
 			return []string{m.Name}
